@@ -44,9 +44,12 @@ META = dict(
          "arr[i:j] with the zero unit before / inside / after the slice; ffi.string(arr, maxlen) with maxlen larger "
          "than the array (L+1, L+2, up to the end of the enclosing object, 2**31, 2**32+1 and 2**63-1 when a zero unit "
          "follows) judged on the units that follow the array; argument conversion of strings whose temporary buffer "
-         "is on both sides of 512 / 640 bytes (astral character first / middle / last); large strings (255..65537 "
-         "units) exact fit, one too short, item assignment between canary rows, for char, signed char, unsigned "
-         "char and the three wide types.",
+         "is on both sides of 512 / 640 bytes (astral character first / middle / last; 612 cases, counter "
+         "arg_boundary_cases); large strings (255..65537 units; 135 cases, counters large_*) open, exact fit, one "
+         "too short, field and item assignment between canary rows, for char, signed char, unsigned char and the "
+         "three wide types with the astral character first / middle / last.  The evidence histogram counts every "
+         "path (path_*), every kind of read (read_*) and where the zero unit lies relative to each slice "
+         "(slice_zero_*).",
     note="trusted: ffi.buffer() exposes the bytes of a cdata; gcc (helper library) for what a callee receives; the "
          "UTF-16 pairing rule of the model is the one the statement names")
 
@@ -67,6 +70,7 @@ WIDE_ALPH = (0x0000, 0x0001, 0x0061, 0x00FF, 0x0100, 0xD7FF, 0xD800, 0xDBFF, 0xD
 FILL = {1: 0x5A, 2: 0x5A5A, 4: 0x05A5A5}      # non-zero in every byte a valid unit can have
 FMT = {1: "B", 2: "H", 4: "I"}
 MAXL = 13
+GUARD = 32                      # bytes behind every allocation of the non-zeroing allocator
 LSPECS = ("too_short", "exact", "plus1", "plus3", "open")
 PATHS = ("new", "new_dirty", "item", "field",
          # further routes into convert_array_from_object (audit gap 3) and views with their own length (gap 2)
@@ -74,6 +78,7 @@ PATHS = ("new", "new_dirty", "item", "field",
          "frombuf")
 OPEN_PATHS = ("new", "new_dirty", "flex_list", "flex_dict")      # array length taken from the string
 FLEX_PATHS = ("flex_list", "flex_dict")
+DIRTY_PATHS = ("new_dirty", "struct_init_dict", "struct_init_list", "nested_list_init") + FLEX_PATHS
 ARG_PATHS = ("arg", "arg_api")
 PTR_PATHS = ("item", "arg", "arg_api", "union_field", "elem_field")   # also read through a 'T *' cast
 HUGE = (2 ** 31, 2 ** 32 + 1, 2 ** 63 - 1)      # (a maxlen truncated to 32 bits becomes negative / 1)
@@ -216,15 +221,29 @@ def state():
     st.fillbytes = b"\x5a"
 
     def alloc(nbytes):
-        b = ffi.new("char[]", max(nbytes, 1))
+        # GUARD more bytes than asked for, all pre-filled: a store that runs past the size cffi computed lands in
+        # the guard (and is seen by guard_overwritten()) instead of corrupting the heap of the worker
+        total = nbytes + GUARD
+        b = ffi.new("char[]", total)
         fb = st.fillbytes
-        ffi.buffer(b)[0:nbytes] = (fb * (nbytes // len(fb) + 1))[:nbytes]
+        ffi.buffer(b)[0:total] = (fb * (total // len(fb) + 1))[:total]
+        st.last_alloc = (b, nbytes)
         return b
     st.dirty_new = ffi.new_allocator(alloc=alloc, free=None, should_clear_after_alloc=False)
     st.objs = {}
     st.stats = {}
     _ST = st
     return st
+
+
+def guard_overwritten(st):
+    """Bytes of the guard behind the last dirty_new allocation that no longer hold the fill pattern."""
+    b, nbytes = st.last_alloc
+    total = nbytes + GUARD
+    fb = st.fillbytes
+    want = (fb * (total // len(fb) + 1))[:total]
+    got = bytes(st.ffi.buffer(b))
+    return [i - nbytes for i in range(nbytes, total) if got[i] != want[i]]
 
 
 def raw_units(ffi, cd, w):
@@ -372,7 +391,8 @@ def one(st, ti, cps, Lspec, path):
             nb = len(ffi.buffer(whole))
             if nb < off + (n + 1) * w or nb % w:
                 probs.append(({"kind": "flex_allocation", "elem": T, "path": path},
-                              {"bytes": nb, "want_at_least": off + (n + 1) * w}))
+                              {"bytes": nb, "want_at_least": off + (n + 1) * w,
+                               "bytes_written_behind_the_allocation": guard_overwritten(st)}))
                 return probs
             arr = whole.a
             if len(arr) != n + 1:
@@ -412,6 +432,11 @@ def one(st, ti, cps, Lspec, path):
 
     base = {"elem": T, "path": path}
     bases = [lo] + also
+    if path in DIRTY_PATHS and (whole is not None or err is not None):
+        over = guard_overwritten(st)
+        if over:
+            probs.append((dict(base, kind="out_of_bounds_write", cls=ecls, where="behind_the_allocation"),
+                          {"L": L, "guard_bytes_changed": over}))
     if must_raise:
         if err is None:
             probs.append((dict(base, kind="accepted_too_long", cls=ecls), {"L": L, "units": units}))
@@ -461,7 +486,10 @@ def one(st, ti, cps, Lspec, path):
     marks = sorted(m for m in {0, 1, n, n + 1, L} if 0 <= m <= L)
     # maxlen larger than the array (b_string never clamps an explicit maxlen to the array): the statement's
     # "stops at the first zero unit within maxlen" is judged on the units that follow the array, which are known
-    # as far as `whole` reaches; beyond that only when a zero unit stops the scan inside `whole`
+    # as far as `whole` reaches; beyond that only when a zero unit stops the scan inside `whole`.
+    # (Reading of the statement: the array length is the DEFAULT maxlen of an array -- as documented for
+    # ffi.string -- and an explicit maxlen is the limit that was asked for.  The two readings differ only on
+    # arrays without a zero unit.  Negative maxlen other than the default -1: the statement is silent, not probed.)
     zr = region.index(0) if 0 in region else len(region)
     beyond = sorted(m for m in {L + 1, L + 2, len(region)} if L < m <= len(region))
     if beyond and zr < len(region):
@@ -726,6 +754,7 @@ def run(ctx):
     items += [("argb", ti, mode) for ti in range(len(ELEMS)) for mode in ("abi", "api")]
     tot_strings = tot_cases = tot_nontriv = 0
     allbad = {}
+    argb_bad = []
     for item, r in pool.pmap(work, [[it] for it in items]):
         if isinstance(r, pool.WorkerError):
             raise InfraError(r.tb)
@@ -739,8 +768,7 @@ def run(ctx):
         if item[0] == "argb":
             nargb += r[0]
             ctx.count("arg_boundary_cases", r[0])
-            for sig, det in r[1]:
-                ctx.violation(sig, det)
+            argb_bad.extend(r[1])
             continue
         ns, nc, nt, counts, bad = r
         tot_strings += ns
@@ -755,6 +783,8 @@ def run(ctx):
         if item[1] == 2:
             ctx.sample({"elem": ELEMS[item[0]][0], "strings": "all of length 2 starting with unit 0x%X" % item[2],
                         "lengths": list(LSPECS), "paths": list(PATHS + FLEX_PATHS + ARG_PATHS)})
+    for sig, det in sorted(argb_bad, key=lambda sd: (sd[1]["ti"], sd[1]["mode"], sd[1]["total"], sd[1]["astral"])):
+        ctx.violation(sig, det)
     # report the smallest examples of every signature first (deterministic order)
     for key in sorted(allbad):
         sig, cnt, details = allbad[key]
